@@ -77,7 +77,7 @@ func (c *checker) spaceA2() {
 					if iv == 0 && fr.name == "full" && st.name == "tidy" {
 						continue // in space A
 					}
-					if fr.xhtml && (st.omitEnd || st.upper || st.quote == 2) {
+					if fr.xhtml && (st.omitEnd || st.upper || st.quote == 2 || st.cutoff) {
 						continue // not well-formed
 					}
 					desc := harness.D("space", "A2", "seq", seqName(seq), "iv", inlineVariants[iv], "frame", fr.name, "style", st.name)
@@ -129,11 +129,11 @@ func (c *checker) spaceB() {
 				}
 				vs := []variant{{0, frames[0], styles[0]}}
 				// spelling / inline deviations: for the structural and mixed wrappers everywhere, for the
-				// vocabulary grid on the first skeleton only (thorough)
-				if ii == 0 && (wi < len(structWrappers)+len(mixedWrappers) || (thorough && sk.name == "body")) {
+				// vocabulary grid in the thorough tier only
+				if ii == 0 && (wi < len(structWrappers)+len(mixedWrappers) || thorough) {
 					vs = append(vs, variant{0, frames[1], styles[6]}, variant{4, frames[3], styles[5]}, variant{0, frames[2], styles[1]})
 					if thorough {
-						vs = append(vs, variant{5, frames[0], styles[3]}, variant{1, frames[1], styles[2]}, variant{6, frames[2], styles[4]})
+						vs = append(vs, variant{5, frames[0], styles[3]}, variant{1, frames[1], styles[2]}, variant{7, frames[2], styles[4]}, variant{6, frames[0], styles[7]})
 					}
 				}
 				for vi, v := range vs {
